@@ -509,6 +509,28 @@ def mc_once(prog: Program) -> RuleResult:
                                             per_elem = True
                 r.check(per_elem, key + "#slice-each", site(f), "", "each element of an assigned slice goes through the on-add hook",
                         "the elements of an assigned slice are not handed to the on-add hook one by one")
+            if mname == "__setitem__":
+                # recording may append inferred elements to this list (transitive fields): the position - negative ones count from the end -
+                # has to be resolved against the list as it is when the write starts, i.e. re-bound from len(self) on every path to the store
+                idx = params[0]
+                stores_ = [nd for nd in cfg.nodes if nd.stmt is not None and any(is_super_call(cc) and cc.func.attr == "__setitem__" and cc.args and isinstance(cc.args[0], ast.Name) and cc.args[0].id == idx
+                                                                                  for part in cfg._own_parts(nd) for cc in calls_in(part))]
+                rebinds = []
+                for nd in cfg.nodes:
+                    if nd.kind == "stmt" and isinstance(nd.stmt, ast.Assign) and any(isinstance(t, ast.Name) and t.id == idx for t in nd.stmt.targets):
+                        txt = src(nd.stmt.value)
+                        uses_len = "len(self)" in txt
+                        for cc in calls_in(nd.stmt.value):
+                            for tg in resolve_call(prog, ctx, cc):
+                                if isinstance(tg, FuncInfo) and any("len(self)" in src(x) for x in ast.walk(tg.node) if isinstance(x, ast.Call)):
+                                    uses_len = True
+                        if uses_len:
+                            rebinds.append(nd.id)
+                raw = any(cfg.path_avoiding(cfg.entry, st_.id, set(rebinds)) is not None for st_ in stores_)
+                r.check(bool(stores_) and not raw, key + "#position-fixed-before-recording", site(f, stores_[0].stmt) if stores_ else site(f), f"{len(rebinds)} re-binding(s) of {idx} from len(self)",
+                        "the position is resolved against the list as it is when the write starts",
+                        f"`{idx}` reaches list.__setitem__ as the caller passed it, after the on-add hook has run: with a transitive field the hook appends inferred elements, and x.f[-1] = y "
+                        "then overwrites an inferred element instead of the old last one (the old element stays, an inferred one is lost)")
             sites = [a for a in _consumption_sites(prog, ctx, f, pname) if id(a) not in non_slice_exprs]
             ev: dict = {}
             for a in sites:
@@ -671,10 +693,17 @@ def mc_args(prog: Program) -> RuleResult:
             params = f.params
             preset = {("is", "None", p): False for p in params[1:]}
             try:
-                paths = _explore(prog, f, [_Sym(p) for p in params], self_type=c.qual, inline=lambda q: q in helpers and not q.endswith("._on_add"), generic_loops=True, preset=preset)
+                def _consistent(v_):
+                    # the result of integer arithmetic / min / max / len / operator.index is never None
+                    return not any(a_[0] == "is" and "None" in a_[1:] and b_ is True and any(t_.startswith(("min(", "max(", "len(", "Add(", "Sub(", "operator.index(")) for t_ in a_[1:] if t_ != "None")
+                                   for a_, b_ in v_.items())
+
+                paths = _explore(prog, f, [_Sym(p) for p in params], self_type=c.qual, inline=lambda q: q in helpers and not q.endswith("._on_add"), generic_loops=True, preset=preset,
+                                 consistent=_consistent)
             except AnalysisError as e:
                 raise AnalysisError(f"MC-ARGS: {c.name}.{mname}: {e}")
             bad = None
+            late = None
             for val, out, calls in paths:
                 stores = [x for x in calls if getattr(x, "fn", "").startswith("super().") and x.fn.split(".")[-1] in ("append", "insert", "extend", "__setitem__", "__iadd__")]
                 label = ", ".join(f"{' '.join(map(str, a[1:]))}={v}" for a, v in val.items() if a not in preset) or "always"
@@ -684,8 +713,25 @@ def mc_args(prog: Program) -> RuleResult:
                 st = stores[0]
                 if st.fn.split(".")[-1] != mname:
                     bad = bad or f"[{label}] stores through list.{st.fn.split('.')[-1]}"
-                elif mname == "insert" and (len(st.args) != 2 or _term(st.args[0]) != params[1]):
-                    bad = bad or f"[{label}] inserts at {_term(st.args[0]) if st.args else '?'} instead of {params[1]}"
+                elif mname == "insert":
+                    pos_t = _term(st.args[0]) if len(st.args) == 2 else "?"
+                    import re as _re
+
+                    if not _re.search(r"\b" + _re.escape(params[1]) + r"\b", pos_t):
+                        bad = bad or f"[{label}] inserts at {pos_t}, which does not depend on {params[1]}"
+                    else:
+                        # recording may append inferred elements to this very list (transitive fields): a negative position has to be
+                        # turned into a position of the list *as it is now* before the hook runs - or the store has to come first
+                        order = [x.fn for x in calls]
+                        hook_i = next((i_ for i_, x in enumerate(calls) if getattr(x, "fn", "").endswith("._on_add")), None)
+                        store_i = calls.index(st)
+                        resolved = "len(self)" in pos_t
+                        if hook_i is not None and hook_i < store_i and not resolved:
+                            late = late or f"[{label}] the hook runs first and the store uses the raw position {pos_t}"
+            if mname == "insert":
+                r.check(late is None, f"{c.name}.{mname}#position-fixed-before-recording", site(f), f"{len(paths)} path(s)", "a negative position is resolved against the list as it is when the write starts",
+                        f"{late}: recording can append inferred elements to this list (transitive fields), so a negative position resolved afterwards counts from the wrong end - "
+                        "x.f.insert(-1, c) puts c behind the old last element")
             r.check(bad is None, f"{c.name}.{mname}#same-builtin-same-position", site(f), f"{len(paths)} path(s)", f"list.{mname} with the caller's arguments on every path",
                     f"{bad}: for that position the element ends up somewhere else than list.{mname} puts it (x.f.insert(-1, c) appends instead of inserting before the last element)")
     return r
